@@ -32,7 +32,20 @@ from props.c03 import (DTYPES, LAYOUTS, UNITS, apply_layout, gen_layout, arr_jso
 from qv.driver import b2f, f2b
 
 LEVEL = "proof"
-EXTRA_PROPS = ["QuantemModel.Props.C06Ext"]      # growth round 6: calibration N-D / order independence / kernel form
+EXTRA_PROPS = ["QuantemModel.Props.C06Ext",      # growth round 6: calibration N-D / order independence / kernel form
+               "QuantemModel.Props.C06Tie"]      # generated_eq_spec_*: the traced index arithmetic of the current source = the model
+
+
+def pregenerate():
+    """called by the runner before `lake build`: EXECUTE the current Dataset.bin / pad / crop / fourier_resample of
+    $QVERIF_REPO on tagged arrays and rewrite lean/QuantemModel/Generated/ResampleTrace.lean (only if the text changes).
+    What the tracer cannot follow comes back as a note (the previous file stays); it never crashes the check."""
+    from translator import resample2lean
+    try:
+        resample2lean.regenerate()
+    except resample2lean.TranslationError as e:
+        return f"resample2lean: {e}"
+    return None
 MANIFEST_ENTRY = {
     "category": "proof",
     "text": "Lean 4 theorems over an executable model of Dataset.bin/pad/crop/fourier_resample (Model/Resample.lean; generic "
